@@ -74,7 +74,7 @@ def one(rng):
     op = rng.choice(["add", "sub", "mul", "divS", "divArr", "abs", "minimum", "diff", "masked_invalid", "set_inner_zeros", "set_tail_zeros",
                      "gt", "lt", "ge", "or", "set_where_b", "set_where", "set_zero_where_b", "set_first_last", "of_input",
                      "sign", "le", "eq_true", "any", "view_init_set", "view_tail_set", "view_tail_set_bools", "set_at0", "mask_or",
-                     "mask_and_xor", "filled", "of_input_junk", "pdiff", "mean_sign", "mul_s", "where_le_plus1", "set_idx", "great_circle", "rolling"])
+                     "mask_and_xor", "filled", "of_input_junk", "pdiff", "mean_sign", "mul_s", "where_le_plus1", "set_idx", "great_circle", "rolling", "where_eq", "empty_fill"])
     req = {"kind": "np", "op": op, "a": wire_cells(a), "b": wire_cells(b), "r": enc(r)}
     with np.errstate(all="ignore"):
         if op == "add":
@@ -162,6 +162,25 @@ def one(rng):
             tr = np.insert(tr, 0, np.full((min(len(A), w),), False))
             hide = lambda c: [[None, True] if m else [d, m] for d, m in c]  # noqa: E731  (the datum under a masked minimum is unspecified)
             return req, [hide(canon_ma(mn)) if len(mn) else [], hide(canon_ma(mx)) if len(mx) else [], [bool(x) for x in np.asarray(tr).tolist()]]
+        if op == "where_eq":
+            # `np.where(v == p)[0]` for a vector of flags / non-flag numbers / masked entries (a flag value under the mask)
+            cells = [rng.choice([1, 2, 3, 4, 9, 0, 7, 257, None]) for _ in range(n)]
+            p_ = rng.choice([1, 2, 3, 4, 9])
+            req["vec"], req["p"] = cells, p_
+            if any(c is None for c in cells) or rng.random() < 0.5:
+                v = np.ma.array([p_ if c is None else c for c in cells], mask=[c is None for c in cells], dtype="int64")
+            else:
+                v = np.array(cells, dtype="int64")
+            return req, [int(i) for i in np.where(v == p_)[0].tolist()]
+        if op == "empty_fill":
+            shapes = [n] * rng.randint(0, 3)
+            req["shapes"] = shapes
+            try:
+                res = np.ma.empty(shapes[0])
+            except IndexError:
+                return req, "IndexError"
+            res.fill(9)
+            return req, [int(x) for x in res.astype("uint8").tolist()]
         if op == "great_circle":
             from ioos_qc.utils import great_circle_distance
             n1 = max(n, 2)          # a single position is never handed to great_circle_distance (np.vectorize rejects size-0 inputs)
